@@ -60,6 +60,38 @@ def _shuffle(d, rnd):
                 _shuffle(e['diff'], rnd)
 
 
+def _alias_job(job):
+    """The same OBJECT passed in two roles (a server that finds a file unchanged diffs nb against nb; a merge where one side did
+    nothing passes base twice): no argument may be modified then either."""
+    seed, n = job
+    logging.disable(logging.CRITICAL)
+    from bounded import nbspace, mergespace
+    from nbdime.diffing.notebooks import diff_notebooks
+    from nbdime.merging import merge_notebooks
+    out, cnt = [], 0
+    for pi, (a, b) in enumerate(nbspace.pairs(seed, n, max_edits=2)):
+        for name, call, objs in (
+                ('diff_notebooks(nb, nb)', lambda: diff_notebooks(a, a), (a,)),
+                ('merge_notebooks(base, base, remote)', lambda: merge_notebooks(a, a, b, mergespace.args_for('inline')), (a, b)),
+                ('merge_notebooks(base, local, local)', lambda: merge_notebooks(a, b, b, mergespace.args_for('inline')), (a, b)),
+                ('merge_notebooks(nb, nb, nb)', lambda: merge_notebooks(a, a, a, mergespace.args_for('mergetool')), (a,))):
+            snap = [nbspace.canon(x) for x in objs]
+            cnt += 1
+            try:
+                call()
+            except Exception:
+                continue                  # failures are C03's business
+            if [nbspace.canon(x) for x in objs] != snap:
+                out.append(('aliased:' + name.split('(')[0], '%s modified a notebook passed in (the same object in two roles)' % name,
+                            {'seed': seed, 'pair': pi, 'n': n, 'call': name}))
+    return cnt, out
+
+
+def replay_alias(where):
+    n, out = _alias_job((where['seed'], where['n']))
+    return [o for o in out if o[2]['pair'] == where['pair'] and o[2]['call'] == where['call']]
+
+
 def replay_render(where):
     n, out = _render_job((where['seed'], where['n']))
     return [o for o in out if o[2]['triple'] == where['triple']]
@@ -113,8 +145,16 @@ def run(res):
                 continue
             seen.add(kind)
             res.violation(detail, dict(where, replay_kind='call', module='checks.c13', function='replay_render', args=[where]))
+    seen = set()
+    for cnt, fails in common.pmap(_alias_job, [(res.seed * 8191 + s, 40 if res.tier == 'quick' else 120) for s in range(16 if res.tier == 'quick' else 64)]):
+        res.evaluations += cnt
+        for kind, detail, where in fails:
+            if kind in seen:
+                continue
+            seen.add(kind)
+            res.violation(detail, dict(where, replay_kind='call', module='checks.c13', function='replay_alias', args=[where]))
     res.assumptions.append('bounded: deep JSON snapshot of every argument before/after each public call over the stated small scope')
-    res.coverage['rule'] += ' Every public call (diff_notebooks, patch_notebook, merge_notebooks, apply_decisions, pretty_print_*) is wrapped in a before/after canonical-JSON snapshot of all arguments; rendering also gets valid diffs with mapping entries in shuffled order.'
+    res.coverage['rule'] += ' Every public call (diff_notebooks, patch_notebook, merge_notebooks, apply_decisions, pretty_print_*) is wrapped in a before/after canonical-JSON snapshot of all arguments; rendering also gets valid diffs with mapping entries in shuffled order; diff and merge are also called with the SAME object in two roles (nb vs nb; base twice; one side twice).'
 
 
 def replay(path):
